@@ -42,3 +42,85 @@ class Monitor:
 
 def monitor(ctx, owner, name, post, **kw):
   return Monitor(ctx, owner, name, post, **kw)
+
+
+class PurityMonitor:
+  """History monitor for functions that must be pure: the first `keep`
+  distinct calls of each wrapped function are recorded (deep-copied arguments
+  and result); `recheck()` re-issues them later - after arbitrary other calls,
+  in reverse order - and demands the same result.  Catches memoisation keyed
+  by too little, cached values mutated in place, state shared between calls."""
+
+  def __init__(self, ctx, keep=150, max_repr=3000):
+    self.ctx, self.keep, self.max_repr = ctx, keep, max_repr
+    self.records = {}
+    self.wrapped = []
+    self.active = True
+
+  def wrap(self, owner, name, norm=None):
+    orig = getattr(owner, name)
+    label = '%s.%s' % (getattr(owner, '__name__', type(owner).__name__).split(
+        '.')[-1], name)
+    recs = self.records.setdefault(label, {})
+    mon = self
+
+    @functools.wraps(orig)
+    def wrapper(*a, **kw):
+      res = orig(*a, **kw)
+      if mon.active and len(recs) < mon.keep:
+        try:
+          key = repr((a, sorted(kw.items())))
+          if len(key) <= mon.max_repr and key not in recs:
+            out = list(res) if hasattr(res, '__next__') else res
+            recs[key] = (copy.deepcopy(a), copy.deepcopy(kw),
+                         copy.deepcopy(norm(out) if norm else out))
+            res = iter(out) if hasattr(res, '__next__') else res
+        except Exception:  # pylint: disable=broad-except
+          pass
+      return res
+    setattr(owner, name, wrapper)
+    self.wrapped.append((owner, name, orig, norm))
+    return self
+
+  def recheck(self):
+    """Re-issues every recorded call (newest first) through the *wrapped*
+    attribute's original and compares."""
+    self.active = False
+    for owner, name, orig, norm in self.wrapped:
+      label = '%s.%s' % (getattr(owner, '__name__', type(owner).__name__
+                                 ).split('.')[-1], name)
+      recs = self.records.get(label, {})
+      for key in reversed(list(recs)):
+        a, kw, want = recs[key]
+        self.ctx.count('evaluations')
+        self.ctx.count('purity_rechecks')
+        try:
+          got = orig(*copy.deepcopy(a), **copy.deepcopy(kw))
+          got = list(got) if hasattr(got, '__next__') else got
+          got = norm(got) if norm else got
+          same = _same(got, want)
+        except Exception as e:  # pylint: disable=broad-except
+          got, same = repr(e), False
+        if not same:
+          self.ctx.violation(
+              'not-a-function-of-its-arguments@%s' % label,
+              '%s%s returned %s earlier and %s when called again later in '
+              'the same process' % (label, key[:300], repr(want)[:200],
+                                    repr(got)[:200]), {'call': key[:500]})
+          break
+    self.active = True
+
+  def restore(self):
+    for owner, name, orig, _ in self.wrapped:
+      setattr(owner, name, orig)
+
+
+def _same(a, b):
+  if isinstance(a, float) and isinstance(b, float):
+    return a == b or (a != a and b != b)
+  if isinstance(a, (list, tuple)) and isinstance(b, (list, tuple)):
+    return len(a) == len(b) and all(_same(x, y) for x, y in zip(a, b))
+  try:
+    return bool(a == b)
+  except Exception:  # pylint: disable=broad-except
+    return repr(a) == repr(b)
